@@ -4,6 +4,8 @@ import Rare.Proofs.C03Det
 import Rare.Proofs.C03Run
 import Rare.Proofs.C03ReduceExpr
 import Rare.Proofs.C03Analyze
+import Rare.Proofs.C03Wiring
+import Rare.Gen.C03
 import Rare.Props.C07
 import Rare.Props.C13
 /-!
@@ -727,5 +729,170 @@ example : (analyzeRun { extra := true, quantiles := [[53, 48]] } [F64.ofInt 50] 
   decide +kernel
 example : (parseQuantiles [[57, 48], [120]]).toOption = none ∧ ¬ Ordinary (F64.zero true) ∧ ¬ Ordinary F64.nan := by decide +kernel
 example : ([1, 2, 4] : List Rat).Perm [4, 1, 2] := by decide
+
+/-! ## the wiring of the commands, regenerated from the Go source on every run (`Rare/Gen/C03.lean`)
+
+`harness/extract/c03.go` reads, from the AST of /repo: for every aggregating command its aggregator constructor,
+the aggregator variable handed to `RunAggregationLoop`, `TryWriteCSV` and `DetermineErrorState`, its sorter flags
+with their defaults, its CSV writer and the order of the final steps; for every `Write…` of `pkg/csv/aggWriters.go`
+what it ranges over, which `sorting.…` value it hands to which accessor and every method it calls on the aggregator;
+the package-level sorters of `sorting/namevalue.go`; the if-chain of `DetermineErrorState`.  The theorems below are
+stated ABOUT those generated definitions, so a command switched to another writer or aggregator, a writer handed a
+stateful / non-total / other sorter or ranging over anything new, a changed default, a reordered final step or a
+changed exit condition stops a proof from checking. -/
+
+/-- The sorter expressions the CSV writers name in the source denote exactly the comparators of the model:
+`WriteCounter` → `ItemsSortedBy(…, NVValueSorter)`, `WriteTable` → `OrderedColumns/OrderedRows(NVNameSorter)`,
+`WriteSubCounter` → `ItemsSorted(NVNameSorter)`, `WriteAccumulator` → `Groups(ByName)`; all of them pure
+functions of the two rows (no inferring closure, no oracle). -/
+theorem csv_sorters_from_source :
+    SortExpr.nvLess Gen.C03.sorterVars ((findWriter Gen.C03.csvWriters "WriteCounter").sorterOf "ItemsSortedBy") = nvValueLess ∧
+    SortExpr.nvLess Gen.C03.sorterVars ((findWriter Gen.C03.csvWriters "WriteTable").sorterOf "OrderedColumns") = nvNameLess ∧
+    SortExpr.nvLess Gen.C03.sorterVars ((findWriter Gen.C03.csvWriters "WriteTable").sorterOf "OrderedRows") = nvNameLess ∧
+    SortExpr.nvLess Gen.C03.sorterVars ((findWriter Gen.C03.csvWriters "WriteSubCounter").sorterOf "ItemsSorted") = nvNameLess ∧
+    SortExpr.nameLess Gen.C03.sorterVars ((findWriter Gen.C03.csvWriters "WriteAccumulator").sorterOf "Groups") = bLt :=
+  ⟨rfl, rfl, rfl, rfl, by rw [bLt_eq_bytesLt]; rfl⟩
+
+/-- What the CSV writers do with their aggregator, pinned: every `range` is over the result of a SORTED accessor
+(or over a local slice / the sub-item vector) – none ranges over a map – and these are all the methods they call. -/
+theorem csv_writers_shape :
+    Gen.C03.csvWriters.map (fun w => (w.name, w.aggType, w.ranges, w.aggCalls)) =
+      [("WriteTable", "aggregation.TableAggregator", ["agg.OrderedRows(sorting.NVNameSorter)", "cols"], ["OrderedColumns", "OrderedRows"]),
+       ("WriteAccumulator", "aggregation.AccumulatingGroup", ["aggr.Groups(sorting.ByName)"],
+        ["ColCount", "GroupCols", "DataCols", "ColCount", "Groups", "GroupColCount", "GroupColCount", "DataNoCopy"]),
+       ("WriteCounter", "aggregation.MatchCounter", ["aggr.ItemsSortedBy(aggr.GroupCount(), sorting.NVValueSorter)"],
+        ["ItemsSortedBy", "GroupCount"]),
+       ("WriteSubCounter", "aggregation.SubKeyCounter", ["aggr.ItemsSorted(sorting.NVNameSorter)", "item.Item.Items()"],
+        ["SubKeys", "ItemsSorted"])] := by
+  decide
+
+/-- Every aggregating command: ONE aggregator – the one it constructs – is sampled by `RunAggregationLoop`,
+exported by `TryWriteCSV` and asked for parse errors by `DetermineErrorState`; the CSV writer is the one for that
+aggregator type; and the final steps come in the order aggregation loop (with its final render) → close the
+terminal → write the CSV → compute the exit status. -/
+theorem commands_wiring :
+    Gen.C03.commands.map (fun c => (c.name, c.aggCtor, c.csvWriter)) =
+      [("histo", "aggregation.NewCounter", "csv.WriteCounter"), ("table", "aggregation.NewTable", "csv.WriteTable"),
+       ("heatmap", "aggregation.NewTable", "csv.WriteTable"), ("spark", "aggregation.NewTable", "csv.WriteTable"),
+       ("bargraph", "aggregation.NewSubKeyCounter", "csv.WriteSubCounter"),
+       ("analyze", "aggregation.NewNumericalAggregator", ""),
+       ("reduce", "aggregation.NewAccumulatingGroup", "csv.WriteAccumulator")] ∧
+    (∀ c ∈ Gen.C03.commands, c.loopAgg = c.aggVar ∧ c.exitArgs.length = 3 ∧ c.exitArgs.getLast? = some c.aggVar ∧
+      (if c.csvWriter = "" then c.order = ["RunAggregationLoop", "Close", "DetermineErrorState"]
+       else c.csvAgg = c.aggVar ∧ c.order = ["RunAggregationLoop", "Close", "TryWriteCSV", "DetermineErrorState"])) := by
+  decide
+
+/-- The sorter flags of every command and their defaults (`helpers.DefaultSortFlag` is `--sort numeric`), the
+sorter `reduce` builds without a flag (`ByContextual()`, reversed by `--sort-reverse`), and: every default is a
+name `BuildSorter` accepts (C13 `parseSort` / `lookupMode`), naming one of the modes C13 proves total (`value`:
+by count then name; `numeric`). -/
+theorem command_sorters :
+    Gen.C03.commands.map (fun c => (c.name, c.sorterFlags.map (fun f => (f.2.1, f.2.2)))) =
+      [("histo", [("sort", "value")]), ("table", [("sort-rows", "value"), ("sort-cols", "value")]),
+       ("heatmap", [("sort-rows", "numeric"), ("sort-cols", "numeric")]),
+       ("spark", [("sort-rows", "value"), ("sort-cols", "numeric")]), ("bargraph", [("sort", "numeric")]),
+       ("analyze", []), ("reduce", [])] ∧
+    Gen.C03.defaultSortFlag = ("sort", "numeric") ∧
+    (findCommand Gen.C03.commands "reduce").otherSorters = [("sorter", .byContextual), ("sorter", .reverse (.other "sorter"))] ∧
+    (∀ c ∈ Gen.C03.commands, ∀ f ∈ c.sorterFlags,
+      (match parseSort asciiLower (asc f.2.2) with
+       | .ok (name, rev) => (lookupMode asciiLower name == some .value && rev) || (lookupMode asciiLower name == some .numeric && !rev)
+       | .error _ => false) = true) := by
+  decide
+
+/-- `DetermineErrorState` as the source has it – the regenerated if-chain with the regenerated exit-code constants –
+computes the modelled exit status for ALL counter values. -/
+theorem exit_chain_from_source (readErrors : Int) (aggNil : Bool) (parseErrors matched : Nat) :
+    evalExitChain Gen.C03.exitChain Gen.C03.exitDefault readErrors aggNil parseErrors matched =
+      determineErrorState readErrors aggNil parseErrors matched ∧
+    Gen.C03.exitCodeNoData = 1 ∧ Gen.C03.exitCodeInvalidUsage = 2 :=
+  ⟨evalExitChain_model readErrors aggNil parseErrors matched, rfl, rfl⟩
+
+/-- `histo --csv`: for the sorter NAMED IN THE SOURCE of `WriteCounter` (`Gen.C03`; by `csv_sorters_from_source`
+it is `NVValueSorter`, a strict total order on rows with distinct names by C13/`nvValueLess_order`), the CSV text
+is a function of the counter's observable state: any `sort.Sort` meeting its contract, any two map iteration
+orders, any two counters with equal look-ups. -/
+theorem csv_of_state_deterministic_histo (alg : List NV → Algo NV (List NV)) (hc : SortContract alg)
+    (c₁ c₂ : Counter) (hobs : ∀ k, aget c₁.items k = aget c₂.items k)
+    (o₁ o₂ : List Bytes) (r₁ : IsRangeOf o₁ c₁.items) (r₂ : IsRangeOf o₂ c₂.items) :
+    let less := SortExpr.nvLess Gen.C03.sorterVars ((findWriter Gen.C03.csvWriters "WriteCounter").sorterOf "ItemsSortedBy")
+    (findCommand Gen.C03.commands "histo").csvWriter = "csv.WriteCounter" ∧
+    (∀ items : List NV, (items.map (·.name)).Nodup → OrderOn (· ∈ items) less) ∧
+    writeCsv (counterRowsBy less (sortOf alg) o₁ fun k => (aget c₁.items k).getD 0) =
+      writeCsv (counterRowsBy less (sortOf alg) o₂ fun k => (aget c₂.items k).getD 0) ∧
+    counterRowsBy less (sortOf alg) o₂ (fun k => (aget c₂.items k).getD 0) = counterCsvRows isortFn o₁ c₁ := by
+  intro less
+  have hl : less = nvValueLess := csv_sorters_from_source.1
+  rw [hl]
+  have := csv_of_state_deterministic alg hc c₁ c₂ hobs o₁ o₂ r₁ r₂
+  exact ⟨by decide, nvValueLess_order, this.1, this.2⟩
+
+/-- `table`, `heatmap`, `spark` `--csv` (all three hand their `TableAggregator` to `WriteTable`): same statement for
+the sorter named in the source of `WriteTable` for columns and for rows. -/
+theorem csv_of_state_deterministic_table_commands (alg : List NV → Algo NV (List NV)) (hc : SortContract alg)
+    (t₁ t₂ : Table) (hcols : ∀ c, aget t₁.cols c = aget t₂.cols c)
+    (hrows : ∀ r, (aget t₁.rows r).isSome = (aget t₂.rows r).isSome)
+    (hcells : ∀ r row1 row2, aget t₁.rows r = some row1 → aget t₂.rows r = some row2 →
+      row1.name = row2.name ∧ row1.sum = row2.sum ∧ ∀ c, aget row1.cols c = aget row2.cols c)
+    (co₁ co₂ ro₁ ro₂ : List Bytes) (hco₁ : IsRangeOf co₁ t₁.cols) (hco₂ : IsRangeOf co₂ t₂.cols)
+    (hro₁ : IsRangeOf ro₁ t₁.rows) (hro₂ : IsRangeOf ro₂ t₂.rows) :
+    let colLess := SortExpr.nvLess Gen.C03.sorterVars ((findWriter Gen.C03.csvWriters "WriteTable").sorterOf "OrderedColumns")
+    let rowLess := SortExpr.nvLess Gen.C03.sorterVars ((findWriter Gen.C03.csvWriters "WriteTable").sorterOf "OrderedRows")
+    (∀ n ∈ ["table", "heatmap", "spark"], (findCommand Gen.C03.commands n).csvWriter = "csv.WriteTable") ∧
+    (∀ items : List NV, (items.map (·.name)).Nodup → OrderOn (· ∈ items) colLess ∧ OrderOn (· ∈ items) rowLess) ∧
+    writeCsv (tableRowsBy colLess rowLess (sortOf alg) co₁ ro₁ t₁.colTotal (fun r => ((aget t₁.rows r).map (·.sum)).getD 0)
+        fun r c => ((aget t₁.rows r).map (·.value c)).getD 0) =
+      writeCsv (tableRowsBy colLess rowLess (sortOf alg) co₂ ro₂ t₂.colTotal (fun r => ((aget t₂.rows r).map (·.sum)).getD 0)
+        fun r c => ((aget t₂.rows r).map (·.value c)).getD 0) := by
+  intro colLess rowLess
+  have h1 : colLess = nvNameLess := csv_sorters_from_source.2.1
+  have h2 : rowLess = nvNameLess := csv_sorters_from_source.2.2.1
+  rw [h1, h2]
+  exact ⟨by decide, fun items hnd => ⟨nvNameLess_order items hnd, nvNameLess_order items hnd⟩,
+    (csv_of_state_deterministic_table alg hc t₁ t₂ hcols hrows hcells co₁ co₂ ro₁ ro₂ hco₁ hco₂ hro₁ hro₂).1⟩
+
+/-- `bargraph --csv`: same statement for the sorter named in the source of `WriteSubCounter`. -/
+theorem csv_of_state_deterministic_bargraph (alg : List NV → Algo NV (List NV)) (hc : SortContract alg)
+    (s₁ s₂ : SubKeyCounter) (hk : s₁.subKeys = s₂.subKeys)
+    (hpres : ∀ k, (aget s₁.items k).isSome = (aget s₂.items k).isSome)
+    (hitems : ∀ k it1 it2, aget s₁.items k = some it1 → aget s₂.items k = some it2 →
+      it1.count = it2.count ∧ it1.submatches = it2.submatches)
+    (o₁ o₂ : List Bytes) (r₁ : IsRangeOf o₁ s₁.items) (r₂ : IsRangeOf o₂ s₂.items) :
+    let less := SortExpr.nvLess Gen.C03.sorterVars ((findWriter Gen.C03.csvWriters "WriteSubCounter").sorterOf "ItemsSorted")
+    (findCommand Gen.C03.commands "bargraph").csvWriter = "csv.WriteSubCounter" ∧
+    (∀ items : List NV, (items.map (·.name)).Nodup → OrderOn (· ∈ items) less) ∧
+    writeCsv (subCounterRowsBy less (sortOf alg) o₁ s₁.subKeys (fun k => ((aget s₁.items k).map (·.count)).getD 0)
+        fun k => ((aget s₁.items k).map (·.submatches)).getD []) =
+      writeCsv (subCounterRowsBy less (sortOf alg) o₂ s₂.subKeys (fun k => ((aget s₂.items k).map (·.count)).getD 0)
+        fun k => ((aget s₂.items k).map (·.submatches)).getD []) := by
+  intro less
+  have hl : less = nvNameLess := csv_sorters_from_source.2.2.2.1
+  rw [hl]
+  exact ⟨by decide, nvNameLess_order, (csv_of_state_deterministic_subkey alg hc s₁ s₂ hk hpres hitems o₁ o₂ r₁ r₂).1⟩
+
+/-- `reduce --csv`: `WriteAccumulator` hands `Groups` the sorter named in the source (`ByName`), which is the
+strict total order `bLt`; so for every reachable aggregator the CSV outcome does not depend on the order the map
+is ranged over (`reduceCsv` is `WriteAccumulator` over `Groups(bLt)`). -/
+theorem csv_of_state_deterministic_reduce (s : AccGroup) (hs : AccReach s) (o₁ o₂ : List Bytes)
+    (r₁ : IsRangeOf o₁ s.data) (r₂ : IsRangeOf o₂ s.data) :
+    let less := SortExpr.nameLess Gen.C03.sorterVars ((findWriter Gen.C03.csvWriters "WriteAccumulator").sorterOf "Groups")
+    (findCommand Gen.C03.commands "reduce").csvWriter = "csv.WriteAccumulator" ∧ C07.StrictTotal less ∧
+    SameOutcome ((s.groupsWith less o₁).map fun gs => writeCsv (writeAccumulatorRows s gs))
+      ((s.groupsWith less o₂).map fun gs => writeCsv (writeAccumulatorRows s gs)) ∧
+    reduceCsv s o₁ = (s.groupsWith less o₁).map fun gs => writeCsv (writeAccumulatorRows s gs) := by
+  intro less
+  have hl : less = bLt := csv_sorters_from_source.2.2.2.2
+  rw [hl]
+  have _ := hs
+  exact ⟨by decide, bLt_strictTotal, reduceCsv_sameOutcome (ObsEq.refl s) (isRange_perm_obs (fun _ => rfl) r₁ r₂), rfl⟩
+
+/-! ### non-vacuity for the wiring theorems -/
+
+example : SortContract (isortA (α := NV)) := C13.sort_contract_satisfiable
+example : (SortExpr.byContextual).nvCmp = none ∧ (SortExpr.valueNilSorter .byNameSmart).nvCmp = none ∧
+    ((SortExpr.named "NVNameSorter").subst Gen.C03.sorterVars) = .valueNilSorter .byName := by decide
+example : evalExitChain Gen.C03.exitChain Gen.C03.exitDefault 0 false 3 10 = 2 ∧
+    evalExitChain Gen.C03.exitChain Gen.C03.exitDefault 0 true 3 10 = 0 ∧
+    evalExitChain Gen.C03.exitChain Gen.C03.exitDefault 0 false 0 0 = 1 := by decide
 
 end Rare.C03
